@@ -199,8 +199,10 @@ def run(check, repo, tier):
     check.rule("R3", "converse: interlock exceptions escape only from commands that would deliver a guarded code of that kind, and only with the flag True")
     check.rule("R4", "inductive step: final flags = pre-state flags updated by the delivered codes")
     check.rule("R5", "closure: flags are stored only in GState; guarded codes are literals only in the instruction table")
+    # io_failures: a writer may fail while it is handed a line; the line then counts as emitted (some writer may have
+    # received it), and the flags must still follow the emitted codes (R4)
     cr = CommandRun(repo, tier=tier, exclude=("write",), cm_body=("pass", "raise"),
-                    pins=pins_thorough if tier == "thorough" else None)
+                    pins=pins_thorough if tier == "thorough" else None, io_failures=True)
     results = cr.run(analyse)
     check.floor(not (cr.stats["commands"] < 40), f"C02: only {cr.stats['commands']} public commands analysed (floor 40)")
     guarded_seen = set()
@@ -251,5 +253,5 @@ def run(check, repo, tier):
            if tier == "thorough" else
            "Quick tier: paths with at most 3 decisions deviating from the default option; the thorough tier is exhaustive."))
     check.assume("raw write() is the documented bypass and is excluded ('through the state-tracked API')")
-    check.assume("callers pass type-correct arguments; writer I/O failures are out of scope")
+    check.assume("callers pass type-correct arguments; a writer may fail (DeviceWriteError) while it is handed a line: the line then counts as emitted, and the flags must follow it")
     check.assume("RS274/Marlin oracle: M03/M04 start, M05 stop tool; M07/M08 start, M09 stop coolant; codes compared modulo leading zeros")
